@@ -20,6 +20,8 @@ SIGMA_CLS = list('a0 ') + ['\t'] + list('\'"\\$#%:;=,()*~|&-@!') + ['é']
 SIGMA_Q = ['a', "'", ' ', '\\']
 
 BATCH = 64
+RESERVED_WORDS = {'cc', 'c++', 'gcc', 'g++', 'ar', 'gfortran', 'ld', 'clang', 'clang++', 'rec', 'drv',
+                  'cp', 'ln', 'ninja', 'gen', 'cpstub', 'doppel', 'patchelf'}
 
 
 def string_space(thorough):
@@ -160,7 +162,8 @@ class CmdWord(Position):
         return [s]
 
     def admissible(self, s, info):
-        return s in info['cmdwords']
+        # names the stub toolchain already uses have a behaviour of their own
+        return s in info['cmdwords'] and s not in RESERVED_WORDS
 
 
 class EnvValue(Position):
@@ -277,8 +280,16 @@ def _strip_compile(argv):
     if a[:2] == ['-x', 'c']:
         a = a[2:]
     if '-c' in a:
-        a = a[:a.index('-c')]
-    return [x for x in a if x not in ('-fdiagnostics-color', '-fcolor-diagnostics')]
+        a = a[:len(a) - 1 - a[::-1].index('-c')]      # the generated -c is the last one
+    out = []
+    dropped = False
+    for x in a:
+        # Ninja's own colour flag is the first flag after `-x c`
+        if not dropped and x in ('-fdiagnostics-color', '-fcolor-diagnostics') and not out:
+            dropped = True
+            continue
+        out.append(x)
+    return out
 
 
 def _strip_link(argv, out):
@@ -286,8 +297,7 @@ def _strip_link(argv, out):
     # cc <ldflags> objs <ldlibs> -o out
     if '-o' in a:
         a = a[:len(a) - 1 - a[::-1].index('-o')]
-    return [x for x in a if not x.endswith('.o') and
-            x not in ('-fdiagnostics-color', '-fcolor-diagnostics')]
+    return [x for x in a if x not in ('./main.o', 'main.o', 'c0.int/main.o')]
 
 
 class DefineOpt(Position):
